@@ -342,10 +342,23 @@ def eff_mask(prob):
     return m
 
 
-def expr_certify(prob, x, w):
+def ref_vector(prob):
+    r = list(prob['init'])
+    if prob['kind'] == 'fixed_poi':
+        r[prob['poi_index']] = prob['poi_val']
+    return r
+
+
+def expr_problem_cert(prob, w):
     wq = core.qlist(w) if not isinstance(w, str) else w
-    return 'out_verdict (certify %s %s %s %s %s)' % (coq_model(prob['cm'], prob['data']), coq_mask(eff_mask(prob)),
-                                                     coq_bounds(prob['bounds']), core.qlist(x), wq)
+    return 'problem_cert %s %s %s %s %s' % (coq_model(prob['cm'], prob['data']), coq_mask(eff_mask(prob)), coq_bounds(prob['bounds']),
+                                            core.qlist(ref_vector(prob)), wq)
+
+
+def expr_fit_cert(prob, x, w):
+    wq = core.qlist(w) if not isinstance(w, str) else w
+    return 'fit_cert %s %s %s %s %s %s' % (coq_model(prob['cm'], prob['data']), coq_mask(eff_mask(prob)), coq_bounds(prob['bounds']),
+                                           core.qlist(ref_vector(prob)), core.qlist(x), wq)
 
 
 # ----------------------------------------------------------------------------------------------
@@ -519,10 +532,11 @@ def f32(v):
     return float(np.float32(v))
 
 
-def witness_for(prob, rec):
+def witness_for(prob, xstart):
     """untrusted proposal of a near-optimal feasible point of the affine problem (None if not affine)"""
     em = eff_mask(prob)
-    x = rec['x']
+    ref = ref_vector(prob)
+    x = [ref[i] if em[i] else xstart[i] for i in range(prob['npars'])]
     aff = affine_float(prob['cm'], em, x, prob['data'])
     if aff is None:
         return None
@@ -610,23 +624,27 @@ def run(ctx):
 
     # ---- model inside Coq ----
     exprs, owner = [], []
+    by_prob = {}
+    for ri, (k, rec) in enumerate(runs):
+        if rec['status'] == 'ok' and 'raw_x' in rec and all(math.isfinite(v) for v in rec['x'] + [rec['fun']]):
+            by_prob.setdefault(k, []).append(ri)
+    witness = {}
+    for k, ris in by_prob.items():
+        prob = problems[k]
+        if prob['family'] == 'counting':
+            s_, b_, n_, lo_, hi_ = prob['counting']
+            witness[k] = '[qclip %s %s ((%s - %s) / %s)%%Qc]' % (core.q(lo_), core.q(hi_), core.q(n_), core.q(b_), core.q(s_))
+        else:
+            best = min(ris, key=lambda ri: runs[ri][1]['fun'])
+            w = witness_for(prob, runs[best][1]['x'])
+            witness[k] = w if w is not None else ref_vector(prob)
+        exprs.append(expr_problem_cert(prob, witness[k])); owner.append((k, 'prob'))
     for ri, (k, rec) in enumerate(runs):
         prob = problems[k]
-        if rec['status'] == 'ok' and 'raw_x' in rec:
+        if k in by_prob and ri in by_prob[k]:
             exprs.append(expr_fit(prob, rec)); owner.append((ri, 'fit'))
-            if prob['family'] == 'counting':
-                s, b, n, lo, hi = prob['counting']
-                w = '[qclip %s %s ((%s - %s) / %s)%%Qc]' % (core.q(lo), core.q(hi), core.q(n), core.q(b), core.q(s))
-                rec['witness'] = 'closed form clip((n-b)/s)'
-            else:
-                w = witness_for(prob, rec)
-                rec['witness'] = w
-                if w is None:
-                    w = rec['x']
-            try:
-                exprs.append(expr_certify(prob, rec['x'], w)); owner.append((ri, 'cert'))
-            except ValueError as e:          # non-finite value returned by a "successful" fit
-                rec['nonfinite'] = str(e)
+            exprs.append(expr_fit_cert(prob, rec['x'], witness[k])); owner.append((ri, 'cert'))
+            rec['witness'] = witness[k]
         elif rec['status'] == 'PyValueError':
             exprs.append(expr_validate(prob)); owner.append((ri, 'val'))
     results = {}
@@ -645,7 +663,7 @@ def run(ctx):
     ctx.log('evaluated %d Coq expressions' % len(exprs))
 
     # ---- decide ----
-    stats = dict(fits=len(runs), ok=0, certified=0, nonconvex=0, not_wellposed=0, by_backend={}, by_optimizer={}, by_kind={}, data_modes={},
+    stats = dict(fits=len(runs), ok=0, certified=0, nonconvex=0, not_wellposed=0, witness_infeasible=0, by_backend={}, by_optimizer={}, by_kind={}, data_modes={},
                  skipped=skipped, misses={}, eligible={'scipy': 0, 'minuit': 0}, max_cert={'scipy': 0.0, 'minuit': 0.0}, validation_errors=0)
     misses = {'scipy': [], 'minuit': []}
     disagree = []
@@ -716,9 +734,10 @@ def run(ctx):
                           replay_body(prob, rec, expected=rec['refun'], theorem='C05_fun_honest'))
             found = True
         # (4) feasibility and the certificate, exact
-        ver = results.get((ri, 'cert'))
-        if ver is not None:
-            affine, inbox, pos, wok, e0, ew = ver
+        ver, pver = results.get((ri, 'cert')), results.get((k, 'prob'))
+        if ver is not None and pver is not None:
+            inbox, pos, gap = ver
+            affine, wok, epsw = pver
             if not inbox:
                 oob = [(prob['par_names'][i], x[i], prob['bounds'][i]) for i in range(prob['npars']) if not (prob['bounds'][i][0] <= x[i] <= prob['bounds'][i][1])]
                 ctx.violation('out-of-bounds:%s:%s' % (be, optn), 'returned parameter outside the supplied bounds: %r' % (oob[:3],),
@@ -726,12 +745,12 @@ def run(ctx):
                 found = True
             elif not affine:
                 stats['nonconvex'] += 1
-            elif not pos:
-                stats['not_wellposed'] += 1
+            elif not pos or not wok:
+                stats['not_wellposed' if not pos else 'witness_infeasible'] += 1
             else:
-                cert2 = 2 * (ew if wok else e0)
+                cert2 = 2 * (gap + epsw)
                 rec['cert2'] = float(cert2)
-                rec['witness_used'] = bool(wok)
+                rec['witness_residual2'] = float(2 * epsw)
                 stats['certified'] += 1
                 stats['eligible'][optn] += 1
                 if cert2 <= Fraction(BUDGET[optn]):
@@ -757,7 +776,7 @@ def run(ctx):
             sig = ('optimum-missed-systematically:%s' % optn) if systematic else ('optimiser-stall:%s' % optn)
             ctx.violation(sig, '%s reports success but twice_nll exceeds that of a feasible point: certified bound on the excess %.3g > budget %.3g '
                           '(%d of %d certified %s fits)' % (optn, c2, BUDGET[optn], len(ms), stats['eligible'][optn], optn),
-                          replay_body(prob, rec, witness=w, certified_excess_bound=c2, largest_moves=far, theorem='C05_kkt_certificate_witness'))
+                          replay_body(prob, rec, witness=w, certified_excess_bound=c2, largest_moves=far, theorem='C05_kkt_certificate_gap'))
             found = True
 
     # (5) cross-configuration spread of the attained objective, per problem (stalled fits excluded: reported above)
